@@ -17,6 +17,13 @@
 (*          ok = FALSE is the panic of the real code                       *)
 (*   parsed TRUE while the state is the one ParseText installed, touched   *)
 (*          by observers only                                              *)
+(*   lastq  with TrackQueries: the observer called last if it left gl and   *)
+(*          fn alone ("" after any other call).  A pure query is a         *)
+(*          self-loop of the object graph, so without this variable TLC    *)
+(*          would generate it only as the *last* call of a history; with   *)
+(*          it the histories "query, then edit, then print" are explored   *)
+(*          (the caches Typ / Successors are filled by a query and must    *)
+(*          not leak into a later print)                                   *)
 (*   hist   the calls made so far (observation only; with out hidden by    *)
 (*          VIEW so that states are identified by the object graph)        *)
 (*                                                                         *)
@@ -27,7 +34,9 @@
 (*              block.NewXxx append), RemoveInst(f, b, pos),               *)
 (*              SetTerm(f, b, term) (set or replace), SetName(target, nm)  *)
 (*              (name, rename, un-name: clears the cached id as            *)
-(*              LocalIdent.SetName / GlobalIdent.SetName do);              *)
+(*              LocalIdent.SetName / GlobalIdent.SetName do),              *)
+(*              Retarget(f, b, to) (assign the exported target field of a  *)
+(*              br / invoke / callbr / catchswitch to another block);      *)
 (*   observers  PrintModule  = Module.String / WriteTo: three sub-steps in *)
 (*              code order -- AssignGlobalIDs, AssignMetadataIDs (owned by *)
 (*              C17, a no-op here), then per function in slice order       *)
@@ -80,13 +89,13 @@ CONSTANTS ValidateOnPrint,   \* TRUE = as implemented, FALSE = as required
           InstRes,           \* subset of {"value","void","none"}
           TermKinds,         \* subset of {"ret","br","invoke","callbr","catchswitch"}
           MaxSrc,            \* ParseText: sources of at most MaxSrc definitions (0 = no ParseText)
+          TrackQueries,      \* TRUE: a pure query is remembered in lastq until the next call
           Observers,         \* subset of {"PrintModule","PrintFunc","PrintBlock","QueryType","QueryIdent","QueryOperands","QuerySuccs"}
           EmitFile
 
-VARIABLES gl, fn, twin, out, parsed, hist
-vars == <<gl, fn, twin, out, parsed, hist>>
-View == <<gl, fn, twin, parsed>>          \* hist and out are observations
-ViewDepth == <<gl, fn, twin, parsed, Len(hist)>>
+VARIABLES gl, fn, twin, out, parsed, lastq, hist
+vars == <<gl, fn, twin, out, parsed, lastq, hist>>
+View == <<gl, fn, twin, parsed, lastq>>   \* hist and out are observations
 
 Groups3 == {"globals", "aliases", "ifuncs"}
 World == [gl |-> gl, fn |-> fn]
@@ -174,7 +183,8 @@ NewFuncW(w, nm, ps)  == [gl |-> [w.gl EXCEPT !.funcs = Append(@, Ent(nm))],
 NewBlockW(w, f, nm)  == [w EXCEPT !.fn[f].blocks = Append(@, Block(nm, <<>>, NoTerm))]
 InsertInstW(w, f, b, p, i) == [w EXCEPT !.fn[f].blocks[b].insts = InsAt(@, p, i)]
 RemoveInstW(w, f, b, p)    == [w EXCEPT !.fn[f].blocks[b].insts = DelAt(@, p)]
-SetTermW(w, f, b, t)       == [w EXCEPT !.fn[f].blocks[b].term = t]
+SetTermW(w, f, b, t)       == [w EXCEPT !.fn[f].blocks[b].term = [t EXCEPT !.tgt = b]]   \* successor: the block itself
+RetargetW(w, f, b, to)     == [w EXCEPT !.fn[f].blocks[b].term.tgt = to]
 
 \* SetName targets: [t, g, f, b, p]
 Tg(t, g, f, b, p) == [t |-> t, g |-> g, f |-> f, b |-> b, p |-> p]
@@ -222,25 +232,26 @@ Mutate(W(_), call) ==     \* W = function world -> world
   /\ Room
   /\ gl' = W(World).gl /\ fn' = W(World).fn
   /\ twin' = W(twin)
-  /\ parsed' = FALSE
+  /\ parsed' = FALSE /\ lastq' = ""
   /\ hist' = Append(hist, call)
   /\ UNCHANGED out
 
 Observe(r, call) ==       \* r = [w, out] for the state; the twin skips observers
   /\ Room
   /\ gl' = r.w.gl /\ fn' = r.w.fn /\ out' = r.out
+  /\ lastq' = IF TrackQueries /\ r.w = World THEN call.op ELSE ""
   /\ hist' = Append(hist, call)
   /\ UNCHANGED <<twin, parsed>>
 
 Init == /\ gl = EmptyGl /\ fn = <<>> /\ twin = [gl |-> EmptyGl, fn |-> <<>>]
-        /\ out = Ok(<<>>) /\ parsed = FALSE /\ hist = <<>>
+        /\ out = Ok(<<>>) /\ parsed = FALSE /\ lastq = "" /\ hist = <<>>
 
 ParseText ==
   /\ hist = <<>> /\ MaxSrc > 0
   /\ \E src \in Sources :
        /\ Len(ParseInstall(src).funcs) <= MaxFuncs
        /\ LET w == ParseW(src) IN
-          /\ gl' = w.gl /\ fn' = w.fn /\ twin' = w /\ parsed' = TRUE
+          /\ gl' = w.gl /\ fn' = w.fn /\ twin' = w /\ parsed' = TRUE /\ lastq' = ""
           /\ hist' = <<[op |-> "ParseText", src |-> src]>>
           /\ UNCHANGED out
 
@@ -268,9 +279,14 @@ RemoveInstA ==
     Mutate(LAMBDA w : RemoveInstW(w, f, b, p), [op |-> "RemoveInst", f |-> f, b |-> b, p |-> p])
 SetTermA ==
   \E f \in 1..Len(fn) : \E b \in 1..Len(fn[f].blocks) : \E t \in Terms :
-    /\ [fn[f].blocks[b].term EXCEPT !.id = 0] # t          \* set, or replace by a different one
+    /\ [fn[f].blocks[b].term EXCEPT !.id = 0, !.tgt = 0] # t          \* set, or replace by a different one
     /\ Mutate(LAMBDA w : SetTermW(w, f, b, t),
               [op |-> "SetTerm", f |-> f, b |-> b, k |-> t.k, nm |-> t.name, res |-> t.res])
+RetargetA ==
+  \E f \in 1..Len(fn) : \E b \in 1..Len(fn[f].blocks), to \in 1..Len(fn[f].blocks) :
+    /\ fn[f].blocks[b].term.k \in {"br", "invoke", "callbr", "catchswitch"}
+    /\ fn[f].blocks[b].term.tgt # to
+    /\ Mutate(LAMBDA w : RetargetW(w, f, b, to), [op |-> "Retarget", f |-> f, b |-> b, p |-> to])
 SetNameA ==
   \E tg \in Targets(World), nm \in SetNames \cup NewNames :
     /\ Exists(World, tg) /\ Obj(World, tg).name # nm
@@ -287,7 +303,7 @@ QueryA == \E q \in Observers \cap {"QueryType", "QueryIdent", "QueryOperands", "
     Observe([w |-> World, out |-> out], [op |-> q])
 
 Next == \/ ParseText
-        \/ NewGlobalA \/ NewFuncA \/ NewBlockA \/ InsertInstA \/ RemoveInstA \/ SetTermA \/ SetNameA
+        \/ NewGlobalA \/ NewFuncA \/ NewBlockA \/ InsertInstA \/ RemoveInstA \/ SetTermA \/ RetargetA \/ SetNameA
         \/ PrintModuleA \/ PrintFuncA \/ PrintBlockA \/ QueryA
 Spec == Init /\ [][Next]_vars
 
